@@ -163,3 +163,118 @@ func VerifHarness_Modules() {
 		}
 	}
 }
+
+// VerifHarness_ModuleChains: graphs of depth two and more. Scenarios (selector):
+//   0 re-export: a defines pub items, b imports them without declaring anything pub, main imports them from b
+//     (broken: b does not export them) or from a directly (legal)
+//   1 a cycle that does not contain the entry module (main -> a -> b -> a), and a module importing itself
+//   2 diamond (main -> a, b; a -> c; b -> c): c's global is initialised once and shared by both paths
+//   3 chain with the same private names at every level: each function runs against its own module
+func VerifHarness_ModuleChains() {
+	sc := errors.VerifNdIntRange("scenario", 0, 3)
+	errors.VerifTag("scenario", []string{"re-export", "inner-cycle", "diamond", "private-names"}[sc])
+	var modules map[string]string
+	var main, want string
+	wantErr := false
+	switch sc {
+	case 0:
+		item := errors.VerifNdIntRange("item", 0, 2)  // function, global, type
+		form := errors.VerifNdIntRange("form", 0, 1)  // single import, list import
+		via := errors.VerifNdIntRange("via", 0, 1)    // 0: from b (re-export), 1: from a (direct)
+		bUses := errors.VerifNdIntRange("bUses", 0, 1) // whether b also imports the item (so it is in b's scope)
+		errors.VerifTag("case", fmt.Sprintf("item=%d form=%d via=%d bUses=%d", item, form, via, bUses))
+		a := "pub fn shared() -> int { return 7; }\npub let LIMIT = 9;\npub type Id = int;\nfn main() { }\n"
+		b := "pub fn own() -> int { return 3; }\nfn main() { }\n"
+		if bUses == 1 {
+			b = "import { shared, LIMIT, type Id } from a;\npub fn own() -> int { let q: Id = LIMIT; return shared() + q - 13; }\nfn main() { }\n"
+		}
+		names := []string{"shared", "LIMIT", "type Id"}
+		src := []string{"b", "a"}[via]
+		imp := "import " + names[item] + " from " + src + ";\n"
+		if form == 1 {
+			if via == 0 {
+				imp = "import { own, " + names[item] + " } from b;\n"
+			} else {
+				imp = "import { " + names[item] + " } from a;\n"
+			}
+		}
+		if !(form == 1 && via == 0) {
+			imp += "import own from b;\n"
+		}
+		use := []string{"  println(shared());\n", "  println(LIMIT);\n", "  let i: Id = 4;\n  println(i);\n"}[item]
+		main = imp + "fn main() {\n  println(own());\n" + use + "}\n"
+		modules = map[string]string{"a": a, "b": b, "main": main}
+		wantErr = via == 0
+		want = "3\n" + []string{"7\n", "9\n", "4\n"}[item]
+	case 1:
+		kind := errors.VerifNdIntRange("kind", 0, 1)
+		errors.VerifTag("case", fmt.Sprint("kind=", kind))
+		if kind == 0 {
+			a := "import g from b;\npub fn f() -> int { return g(); }\nfn main() { }\n"
+			b := "import f from a;\npub fn g() -> int { return 1; }\nfn main() { }\n"
+			main = "import f from a;\nfn main() {\n  println(f());\n}\n"
+			modules = map[string]string{"a": a, "b": b, "main": main}
+		} else {
+			main = "import mk from main;\npub fn mk() -> int { return 1; }\nfn main() {\n  println(mk());\n}\n"
+			modules = map[string]string{"main": main}
+		}
+		wantErr = true
+	case 2:
+		c := "pub let cnt = 0;\npub fn inc() -> int { cnt += 1; return cnt; }\nfn main() { }\n"
+		a := "import inc from c;\npub fn fa() -> int { return inc(); }\nfn main() { }\n"
+		b := "import inc from c;\npub fn fb() -> int { return inc() * 10; }\nfn main() { }\n"
+		main = "import fa from a;\nimport fb from b;\nimport inc from c;\nfn main() {\n  println(fa(), fb(), inc(), fa());\n}\n"
+		modules = map[string]string{"a": a, "b": b, "c": c, "main": main}
+		want = "1 20 3 4\n"
+	case 3:
+		c := "let v = 300;\nfn k() -> int { return v + 3; }\npub fn fc() -> int { return k(); }\nfn main() { }\n"
+		a := "import fc from c;\nlet u = 200;\nfn k() -> int { return u + 2; }\npub fn fa() -> int { return k() * 1000 + fc(); }\nfn main() { }\n"
+		main = "import fa from a;\nlet t = 100;\nfn k() -> int { return t + 1; }\nfn main() {\n  println(k(), fa());\n}\n"
+		modules = map[string]string{"a": a, "c": c, "main": main}
+		want = "101 202303\n"
+	}
+	var an verifAnalysis
+	panicked, msg := errors.VerifPanics(func() { an = verifAnalyze(main, modules, nil, true) })
+	if panicked {
+		errors.VerifTag("panic", errors.VerifNorm(msg))
+		errors.VerifTag("site", errors.VerifPanicSite())
+		errors.VerifAssert("module-analysis-never-crashes", false)
+		return
+	}
+	errors.VerifReached("analyzed")
+	if wantErr {
+		errors.VerifAssert("broken-import-rule-is-diagnosed", an.hasError)
+		return
+	}
+	if an.hasError {
+		errors.VerifTag("diag", an.describe())
+	}
+	errors.VerifAssert("valid-module-graph-accepted", !an.hasError)
+	if an.hasError {
+		return
+	}
+	for backend := 0; backend < 2; backend++ {
+		var o verifOutcome
+		name := []string{"vm", "tree"}[backend]
+		p, m := errors.VerifPanics(func() {
+			if backend == 0 {
+				o = verifRunVM(an, modules, nil, verifLimits, newVerifCtx())
+			} else {
+				o = verifRunTree(an, modules, nil, 100, newVerifCtx())
+			}
+		})
+		if p {
+			errors.VerifTag("panic", errors.VerifNorm(m))
+			errors.VerifAssert(name+"-linked-program-never-crashes", false)
+			errors.VerifUntag("panic")
+			continue
+		}
+		errors.VerifReached("ran")
+		errors.VerifAssert(name+"-run-completes", o.class == "ok")
+		if o.class == "ok" {
+			errors.VerifTag("got", errors.VerifNorm(o.out))
+			errors.VerifAssert(name+"-modules-linked-and-initialised-once", o.out == want)
+			errors.VerifUntag("got")
+		}
+	}
+}
